@@ -694,6 +694,14 @@ namespace awkward {
       }
     }
     check_for_iteration();
+    for (size_t j = 0;  j < cols;  j++) {
+      if (contents_[j].get()->length() < rows) {
+        throw std::invalid_argument(
+          std::string("RecordArray field ") + util::quote(keys.get()->at(j))
+          + std::string(" is shorter than the RecordArray's length")
+          + FILENAME(__LINE__));
+      }
+    }
     if (include_beginendlist) {
       builder.beginlist();
     }
